@@ -385,7 +385,12 @@ CHECKS["C13"] = {
                  "oracle = reference selection model + a checker-side copy maintained from the deltas the consumer sees",
     "design_ref": "DESIGN.md 2/C13",
     "parts": [{"name": "ref", "exe": "c13_ref", "sources": ["c13_ref.cpp"], "shards": {"quick": 16, "thorough": 256}},
-              {"name": "composite", "exe": "c13_composite", "sources": ["c13_composite.cpp"], "shards": {"quick": 16, "thorough": 64}}],
+              {"name": "composite", "exe": "c13_composite", "sources": ["c13_composite.cpp"], "shards": {"quick": 16, "thorough": 64}},
+              {"name": "getitem", "exe": "c13_getitem", "sources": ["c13_getitem.cpp"], "shards": {"quick": 16, "thorough": 64}}],
+    "rule_keyed": "lookup part: probe(getitem_(if_then_else(c, A, B), 1)) - an element lookup hanging off the reference as a structural observer; A and B hold key 1 "
+                  "from cycle 0 and agree or differ in holding key 2; every history of selector {-,T,F} x op on A {-, write [1], write [2], erase [2]} x op on B over "
+                  "T=3 (4) cycles after 6 initial configurations: evaluated exactly when the selected dictionary's entry is written or the selection changes, reads "
+                  "the selected entry; non-trivial = a retarget between dictionaries holding the same keys.",
     "rule": "composite part: if_then_else(sel, CA, CB) over COMPOSITES assembled on the consumer side (to_tsb / to_tsl of independent producers: non-peered references) that share no producer, their first leg, or their last leg; every history of {selector -, T, F} x ticks of the three producers over T cycles: the consumer is evaluated exactly when a leg of the selected composite ticks or the selection moves to the other composite, and reads the selected legs. programs: if_then_else(cond,A,B) with one consumer / two consumers / passed through nested_<pass-through> / switch_ with pass-through "
             "branches; target shapes TS<Int>, TSS<Int>, TSD<Int,TS<Int>>; per cycle selector tick in {-,T,F} x one operation of a 3-4 symbol alphabet "
             "on A x one on B (ticks, removals, no-ops), every history over T cycles. Oracle: consumer evaluated iff the current target ticks or the "
